@@ -16,6 +16,7 @@ func runC06(c *core.Check) {
 	c.Assumes = []string{"pairs where either evaluation reports an error are outside the statement"}
 	streamTLC(c, core.TLCRun{Module: "MC_E1", NoPred: true, Parts: 4, Consts: e1Consts(c), Timeout: minutes(25), KeepVars: []string{"e", "fv", "last"}},
 		func(st core.State) { c06.Handle(c, st) })
+	deepE1(c, false, func(st core.State) { c06.Handle(c, st) })
 	// decodable bodies: the expression as attribute value, BlockAttrs value, default primary, dynamic for_each
 	// (list, tuple, single block, map with labels), content of generated and nested static blocks
 	bc := map[string]string{"MaxD": "1", "Level2": "\"core\""}
